@@ -6,7 +6,7 @@
 From Coq Require Import String.
 From Coq Require Import List Ascii ZArith Bool Lia Permutation FinFun.
 From CGV Require Import Base.PyBase Base.PyVal Gen.SmilesGen Frag.NDict Frag.FragText Frag.SmilesParse Frag.SmilesSpec
-     Frag.SmilesProofs Frag.SmilesPerm Frag.SmilesReverse Frag.SmilesPermR Frag.SmilesPermX Frag.SmilesReroot.
+     Frag.SmilesProofs Frag.SmilesPerm Frag.SmilesReverse Frag.SmilesPermR Frag.SmilesPermX Frag.SmilesPermG Frag.SmilesReroot.
 Import ListNotations.
 
 (** * a permutation below n has an inverse *)
@@ -93,6 +93,65 @@ Lemma xswap_example :
 Proof.
   repeat (split; [vm_compute; reflexivity|]). split; [|split].
   - intros b m IN. cbn in IN. repeat (destruct IN as [IN|IN]; [inversion IN; subst; vm_compute; reflexivity|]). contradiction.
+  - eexists. split; [vm_compute; reflexivity|]. repeat split; reflexivity.
+  - eexists. eexists. split; [vm_compute; reflexivity|]. split; [vm_compute; reflexivity|].
+    split; [reflexivity|]. split; [reflexivity|]. split; [cbn; tauto|]. split; [cbn; tauto|discriminate].
+Qed.
+
+(** * any ring bonds through two exchanged branches with disjoint ring numbers: graph level *)
+Theorem gswap_branches x pa pb y g c :
+  grun false ginit x = Ok g -> q_cur g = Some c -> q_pend g = None ->
+  is_rblock pa = true -> is_rblock pb = true -> disj pa pb ->
+  let s := swap_sigma (q_n g) (count_atoms pa) (count_atoms pb) in
+  match graph_of false (x ++ pa ++ pb ++ y), graph_of false (x ++ pb ++ pa ++ y) with
+  | Ok G, Ok H => exists n, graph_perm s n G H /\ sigma_ok s n
+  | Err e, Err e' => e = e'
+  | _, _ => False
+  end.
+Proof.
+  intros RX C P BA BB DJ s.
+  pose proof (gswap_branches_base x pa pb y g c RX C P BA BB DJ) as H. fold s in H. unfold graph_of.
+  destruct (graph_base false (x ++ pa ++ pb ++ y)) as [b1|e1], (graph_base false (x ++ pb ++ pa ++ y)) as [b2|e2];
+    cbn [bind]; try contradiction; [|exact H].
+  destruct H as [n [BP SO]]. pose proof (interpret_perm s _ n b1 b2 BP SO (sigma_ok_inv s n SO)) as IP.
+  destruct (interpret b1), (interpret b2); try contradiction; [exists n; split; assumption|exact IP].
+Qed.
+Theorem gswap_branches_text x pa pb y g c :
+  wf_smiles (x ++ pa ++ pb ++ y) = true -> wf_smiles (x ++ pb ++ pa ++ y) = true ->
+  grun false ginit x = Ok g -> q_cur g = Some c -> q_pend g = None ->
+  is_rblock pa = true -> is_rblock pb = true -> disj pa pb ->
+  let s := swap_sigma (q_n g) (count_atoms pa) (count_atoms pb) in
+  match smiles_parse (render_smiles false (x ++ pa ++ pb ++ y)), smiles_parse (render_smiles false (x ++ pb ++ pa ++ y)) with
+  | Ok G, Ok H => exists n, graph_perm s n G H /\ sigma_ok s n
+  | Err e, Err e' => e = e'
+  | _, _ => False
+  end.
+Proof. intros W1 W2. rewrite (render_parse false _ W1), (render_parse false _ W2). apply gswap_branches. Qed.
+(** [disj] by computation *)
+Definition disjb (pa pb : list tok) : bool := forallb (fun z => negb (inb z (nums pb))) (nums pa).
+Lemma disjb_sound pa pb : disjb pa pb = true -> disj pa pb.
+Proof.
+  unfold disjb, disj. rewrite forallb_forall. intros H z Hz. unfold inb in Hz. apply existsb_exists in Hz.
+  destruct Hz as [k [IN Q]]. apply Z.eqb_eq in Q. subst k. specialize (H z IN). apply negb_true_iff in H. exact H.
+Qed.
+
+(** non-vacuity: C1CCC(CC1)(C2CC)N2 and C1CCC(C2CC)(CC1)N2 — the first branch closes ring bond 1 opened before
+    it, the second opens ring bond 2 closed after both *)
+Definition gs_x := [TAtom (S "C"); TRing None (S "1"); TAtom (S "C"); TAtom (S "C"); TAtom (S "C")].
+Definition gs_pa := [TOpen; TAtom (S "C"); TAtom (S "C"); TRing None (S "1"); TClose].
+Definition gs_pb := [TOpen; TAtom (S "C"); TRing None (S "2"); TAtom (S "C"); TAtom (S "C"); TClose].
+Definition gs_y := [TAtom (S "N"); TRing None (S "2")].
+Lemma gswap_example :
+  to_string (render_smiles false (gs_x ++ gs_pa ++ gs_pb ++ gs_y)) = "C1CCC(CC1)(C2CC)N2"%string /\
+  to_string (render_smiles false (gs_x ++ gs_pb ++ gs_pa ++ gs_y)) = "C1CCC(C2CC)(CC1)N2"%string /\
+  wf_smiles (gs_x ++ gs_pa ++ gs_pb ++ gs_y) = true /\ wf_smiles (gs_x ++ gs_pb ++ gs_pa ++ gs_y) = true /\
+  is_rblock gs_pa = true /\ is_rblock gs_pb = true /\ rings_local gs_pa = false /\ rings_local gs_pb = false /\
+  disjb gs_pa gs_pb = true /\
+  (exists g, grun false ginit gs_x = Ok g /\ q_cur g = Some 3 /\ q_pend g = None /\ length (q_open g) = 1) /\
+  (exists G H, graph_of false (gs_x ++ gs_pa ++ gs_pb ++ gs_y) = Ok G /\ graph_of false (gs_x ++ gs_pb ++ gs_pa ++ gs_y) = Ok H /\
+     length (g_nodes G) = 10 /\ length (g_edges G) = 11 /\ In (5, 0, VInt 1) (g_edges G) /\ In (8, 0, VInt 1) (g_edges H) /\ G <> H).
+Proof.
+  repeat (split; [vm_compute; reflexivity|]). split.
   - eexists. split; [vm_compute; reflexivity|]. repeat split; reflexivity.
   - eexists. eexists. split; [vm_compute; reflexivity|]. split; [vm_compute; reflexivity|].
     split; [reflexivity|]. split; [reflexivity|]. split; [cbn; tauto|]. split; [cbn; tauto|discriminate].
@@ -206,6 +265,10 @@ Inductive rw1 : list tok -> list tok -> (nat -> nat) -> Prop :=
     grun false ginit x = Ok g -> q_cur g = Some c -> q_pend g = None ->
     is_rblock pa = true -> is_rblock pb = true -> rings_local pb = true -> fresh g pa -> fresh g pb -> avoids pa pb ->
     rw1 (x ++ pa ++ pb ++ y) (x ++ pb ++ pa ++ y) (swap_sigma (q_n g) (count_atoms pa) (count_atoms pb))
+| rw_gswap x pa pb y g c :
+    grun false ginit x = Ok g -> q_cur g = Some c -> q_pend g = None ->
+    is_rblock pa = true -> is_rblock pb = true -> disj pa pb ->
+    rw1 (x ++ pa ++ pb ++ y) (x ++ pb ++ pa ++ y) (swap_sigma (q_n g) (count_atoms pa) (count_atoms pb))
 | rw_paren x0 T g c :
     grun false ginit x0 = Ok g -> q_cur g = Some c -> nonnegb 0 T = true ->
     rw1 (x0 ++ T) (x0 ++ TOpen :: T ++ [TClose]) sid
@@ -235,6 +298,8 @@ Proof.
     apply (swap_rbranches_base x pa pb y g c); assumption.
   - apply (base_rel_graphs _ (graph_base false _) (graph_base false _)). apply base_perm_rel.
     apply (xswap_branches_base x pa pb y g c); assumption.
+  - apply (base_rel_graphs _ (graph_base false _) (graph_base false _)). apply base_perm_rel.
+    apply (gswap_branches_base x pa pb y g c); assumption.
   - rewrite (tail_paren x0 T g c) by assumption. apply graphs_rel_refl.
   - rewrite (tail_paren x0 T g c) by assumption. apply graphs_rel_refl.
 Qed.
